@@ -82,21 +82,21 @@ theorem toS_isEmpty {l : Str} (h : l ≠ []) : (toS l).isEmpty = false := by
   | cons c r => simp [toS, String.isEmpty_iff]
 
 theorem hasText_of_valid {l : Str} (h : validLocation l = true) : hasText l = true := by
+  have hp := startsWith_http_of_valid h
   cases l with
-  | nil => revert h; decide
+  | nil => revert hp; decide
   | cons c r =>
-    simp only [validLocation, Bool.and_eq_true] at h
     have : c = 'h' := by
-      have := h.1
       have e : "http".toList = ['h', 't', 't', 'p'] := by decide
-      rw [e] at this
-      simp only [startsWith, Bool.and_eq_true, beq_iff_eq] at this; exact this.1
+      rw [e] at hp
+      simp only [startsWith, Bool.and_eq_true, beq_iff_eq] at hp; exact hp.1
     subst this
     have : isSpace 'h' = false := by decide
     simp [hasText, this]
 
 theorem ne_nil_of_valid {l : Str} (h : validLocation l = true) : l ≠ [] := by
-  rintro rfl; revert h; decide
+  have hp := startsWith_http_of_valid h
+  rintro rfl; revert hp; decide
 
 theorem usn_ne_nil {usn dev : Str} (hu : udnFromUsn usn = some dev) : usn ≠ [] := by
   rintro rfl
@@ -192,7 +192,7 @@ theorem hearResponse_ok {e : Exp} (h : ExpOk e) (c : Cfg) {m : Msg} (husn : m.us
           udnFromUsn_eq, hu])
     (by simp [Parse.mkMsg, hset, l_st, truthy_some (toS_isEmpty hst)])
     (by simp [Parse.mkMsg, hset, l_loc, truthy_some (toS_isEmpty (ne_nil_of_valid hl))])
-    (by simp [Parse.mkMsg, hset, l_loc, truthy_some (toS_isEmpty (ne_nil_of_valid hl)), (validLocation_eq c.location).1, hl])
+    (by simp [Parse.mkMsg, hset, l_loc, truthy_some (toS_isEmpty (ne_nil_of_valid hl)), validLocation_eq c.location, hl])
   simpa [step, Parse.mkMsg, toS_toList] using hres
 
 /-! ### advertisements -/
@@ -242,7 +242,7 @@ theorem notify_event {e : Exp} (h : ExpOk e) (c : Cfg) {m : Msg} (husn : m.usn =
     simp [Parse.mkMsg, hset, l_nt, truthy_some (toS_isEmpty hst), this]
   · simp [Parse.mkMsg, hset, l_loc, truthy_some (toS_isEmpty (ne_nil_of_valid hl))]
   · have : kind ≠ .search := by rcases hk with ⟨_, rfl⟩ | ⟨_, rfl⟩ <;> decide
-    simp [Parse.mkMsg, hset, l_loc, truthy_some (toS_isEmpty (ne_nil_of_valid hl)), (validLocation_eq c.location).2, hl, this]
+    simp [Parse.mkMsg, hset, l_loc, truthy_some (toS_isEmpty (ne_nil_of_valid hl)), validLocation_eq c.location, hl, this]
 
 theorem hearAlive_ok {e : Exp} (h : ExpOk e) (c : Cfg) {m : Msg} (husn : m.usn = e.usn) (hst : m.st ≠ [])
     (hl : validLocation c.location = true) :
